@@ -29,6 +29,11 @@ def scenarios(ctx: Ctx) -> List[Dict[str, Any]]:
     for k in range(ctx.pick(6, 40)):
         sc.append({"id": f"adv{base + k}", "src": "gen", "seed": 42000 + base + k, "steps": 50, "world_kwargs": {"fleets": True},
                    "mix": ["builtin+adv", "adv+builtin"][k % 2]})
+    for k in range(ctx.pick(6, 40)):
+        # several fleets, every station owned by one of them, many vehicles reaching the charging threshold together - some with
+        # nowhere to charge: whom the charging manager serves must not depend on the order of a hash map
+        sc.append({"id": f"fleetlow{base + k}", "src": "gen", "seed": 45000 + base + k, "steps": 40,
+                   "world_kwargs": {"focus": "fleet", "variant": "lowcharge"}, "mix": "builtin"})
     for k in range(ctx.pick(4, 30)):
         sc.append({"id": f"queue{base + k}", "src": "gen", "seed": 43000 + base + k, "steps": 70, "world_kwargs": {"focus": "queue"},
                    "mix": "adv"})
